@@ -17,7 +17,7 @@ def main():
     args = sys.argv[1:]
     cmd = ['/venv/bin/python', '-m', 'pytest', '-ra', '-q', '-p', 'no:cacheprovider', '--timeout=900',
            '--continue-on-collection-errors', f'--junitxml={path}'] + args
-    p = subprocess.run(cmd, cwd=os.environ.get('VERIF_REPO', '/repo'), env=env, stdout=subprocess.PIPE, stderr=subprocess.STDOUT, text=True)
+    p = subprocess.run(cmd, cwd=(os.environ.get('VERIF_REPO') or '/repo'), env=env, stdout=subprocess.PIPE, stderr=subprocess.STDOUT, text=True)
     passed = set()
     try:
         for tc in ET.parse(path).getroot().iter('testcase'):
